@@ -86,18 +86,26 @@ func (x *XSpec) Explore(r *Report, job *Job) {
 	r.Bounds[x.Name] = map[string]interface{}{"depth": x.Depth, "alphabet": A, "letters": alphaStrings(x.Alphabet)}
 	var hist []Op
 	idx2 := 0
+	// depth at which subtrees are dealt out to shards: enough units for a good balance
+	sd := 1
+	for n := A; n < 60*job.NShards && sd < x.Depth; n *= A {
+		sd++
+	}
 	var rec func(depth int)
 	rec = func(depth int) {
 		if r.Incomplete && r.Expired() {
 			return
 		}
 		// ownership: nodes of depth < 2 belong to shard 0; deeper ones to the shard of their depth-2 ancestor
-		mine := true
-		if depth < 2 {
-			mine = job.Shard == 0
-		}
+		// shallow nodes are executed by every shard (each must know which prefixes already violate) but
+		// only shard 0 counts and reports them
+		report := depth >= sd || job.Shard == 0
 		extend := true
-		if mine {
+		if !report {
+			if out := x.RunHistory(hist, false); out.MM != nil {
+				extend = false
+			}
+		} else {
 			if r.Expired() {
 				return
 			}
@@ -131,7 +139,7 @@ func (x *XSpec) Explore(r *Report, job *Job) {
 			if x.Prune != nil && x.Prune(hist, o) {
 				continue
 			}
-			if depth == 1 {
+			if depth == sd-1 {
 				own := idx2%job.NShards == job.Shard
 				idx2++
 				if !own {
